@@ -28,14 +28,14 @@ class C09(BaseCheck):
           'Every 4th case instead has 2-3 endpoints that all become unreachable at once and one of them '
           'returns ((c) and (d) only); every 8th has 3-4 endpoints behind the heap balancer of which two go '
           'down one after the other and come back in either order while the rest stay healthy ((c) with a '
-          '30 s traffic allowance for the balancer\'s random choice, (d)). non-trivial = at least one outage with >= 2 reconnect attempts; distinct by (stack, params, '
+          '30 s traffic allowance for the balancer\'s random choice, (d)); another 8th has 3-5 endpoints behind an aperture balancer with jitter rounds every 1-4 s, the connected endpoint(s) go down under traffic (marked down, rotated out), the client is closed while they are down and they return afterwards ((d)). 40% of the Thrift single-endpoint cases use a bounded watermark pool with a burst of calls right before the outage (requests waiting in the pool when the connection dies); only connection attempts that originate from the resurrector are judged against the back-off schedule (b). non-trivial = at least one outage with >= 2 reconnect attempts; distinct by (stack, params, '
           'outage classes, #retries bucket, recovery phase bucket)')
   ANCHORS = ('scales.resurrector:ResurrectorSink._OnSinkFaulted', 'scales.resurrector:ResurrectorSink._TryResurrect',
              'scales.resurrector:ResurrectorSink.AsyncProcessRequest', 'scales.resurrector:ResurrectorSink.Close')
   REQUIRED_ANCHORS = ANCHORS
   REQUIRED_CLASSES = ('thrift', 'mux', 'multi-endpoint', 'outage:refuse', 'outage:blackhole', 'down-at-first-connect', 'recovered',
                       'fail-fast-seen', 'backoff-capped', 'closed-while-down', 'closed-on-error', 'staggered-outages',
-                      'recover:first-down-first', 'recover:last-down-first')
+                      'recover:first-down-first', 'recover:last-down-first', 'rotation-during-outage', 'waiters-at-outage')
   ASSUMPTIONS = ('initial_wait_interval > 1 (the implementation\'s x**exponent back-off only grows above 1)',
                  'black-holed connects give up after 3 s in these scenarios (SYN timeout shortened so that '
                  'attempt durations stay small against the retry intervals)')
@@ -105,6 +105,65 @@ class C09(BaseCheck):
     out.nontrivial = True
     out.extra = {'calls': len(w.calls), 'multi_cases': 1}
     out.sig = ('multi', kind, balancer, n, (init, mx, ex), mode)
+    return out
+
+  def _rotation(self, env, rng, idx, tier):
+    """Aperture balancer with frequent jitter rounds over 3-5 endpoints; one endpoint goes down under
+    traffic (it is marked down, the aperture grows, rounds rotate it out), the client is closed
+    while it is still down, then it comes back: silence after the close, nothing left open."""
+    from vlib import servers
+    from vlib.stackworld import StackWorld
+    out = CaseResult()
+    kind = ('thrift', 'mux')[(idx // 8) % 2]
+    init, mx, ex = rng.choice([(1.5, 10, 1.2), (2, 20, 1.5), (1.5, 4, 1.2)])
+    n = rng.choice([3, 4, 5])
+    jit = rng.choice([(1, 2), (2, 4)])
+    w = StackWorld(env, rng, kind=kind, n_eps=n, timeout=1.0, policy=servers.DefaultPolicy(0.002),
+                   resurrector={'initial_wait_interval': init, 'max_wait_interval': mx, 'backoff_exponent': ex},
+                   connect_latency=0.001,
+                   aperture={'min_size': 1, 'max_size': 2 ** 31, 'min_load': 0.5, 'max_load': 2.0,
+                             'jitter_min_sec': jit[0], 'jitter_max_sec': jit[1]})
+    facts = {'stack': kind, 'params': [init, mx, ex], 'endpoints': n, 'balancer': 'aperture+jitter'}
+    classes = {kind, 'multi-endpoint', 'rotation-during-outage'}
+    for s_ in w.servers:
+      s_.sim.syn_timeout = 3.0
+    delta = rng.choice([0.1, 0.25])
+
+    def tick(k, conc=1):
+      for _ in range(k):
+        for _c in range(conc):
+          w.call('echo', None, timeout=1.0)
+        env.advance(delta)
+    tick(rng.randint(8, 30), rng.choice([1, 3]))
+    # the endpoint(s) the client is connected to right now go down
+    victims = [s_ for s_ in w.servers if any(not c.client_closed for c in s_.sim.conns)][:rng.choice([1, 2])]
+    mode = rng.choice(['refuse', 'blackhole'])
+    for s_ in victims:
+      s_.sim.mode = mode
+      for c in s_.sim.conns:
+        if not c.client_closed:
+          c.close_by_server('rst')
+    t_down = env.now
+    tick(int(rng.choice([10, 25, 60]) / delta), rng.choice([1, 1, 3]))
+    w.close()
+    t_close = env.now
+    env.advance(rng.choice([0.0, 0.5, 3.0]))
+    for s_ in victims:
+      s_.sim.mode = 'up'
+    env.advance(3 * mx + 10)
+    out.obligations += 2
+    late = [a for s_ in w.servers for a in s_.sim.connect_attempts if a[0] > t_close + EPS]
+    if late:
+      out.violate('close:reconnect-after-close', '%d connect attempt(s) after DispatcherClose(), first %.2fs later (%s)' % (
+        len(late), late[0][0] - t_close, late[0][3]), facts, {'down_for': t_close - t_down})
+    left_open = [c.id for s_ in w.servers for c in s_.sim.conns if not c.client_closed]
+    if left_open:
+      out.violate('close:connection-left-open', '%d connection(s) still open on the client side %.0fs after '
+                  'DispatcherClose()' % (len(left_open), env.now - t_close), facts, {'conns': left_open[:5]})
+    out.classes = sorted(classes)
+    out.nontrivial = True
+    out.extra = {'calls': len(w.calls), 'rotation_cases': 1}
+    out.sig = ('rotation', kind, n, (init, mx, ex), mode, jit, len(victims))
     return out
 
   def _staggered(self, env, rng, idx, tier):
@@ -179,6 +238,8 @@ class C09(BaseCheck):
       return self._multi(env, rng, idx, tier)
     if idx % 8 == 5:
       return self._staggered(env, rng, idx, tier)
+    if idx % 8 == 1:
+      return self._rotation(env, rng, idx, tier)
     from scales.dispatch import ScalesError
     from scales.message import FailedFastError, TimeoutError as ScalesTimeout
     from vlib import servers
